@@ -2,7 +2,7 @@
    The charset of the file is an oracle: [dec] decodes a byte string, [enc] encodes one character. *)
 From Coq Require Import NArith List Bool.
 From I18n Require Import Lib.Outcome Model.PoUnescape Model.PoParser Spec.PoSyntax Proofs.PoUnescape Proofs.PoStrings
-  Proofs.PoParser Proofs.PoWitness Proofs.PoLex Model.PoLexer Proofs.PoOpen Proofs.PoDetect Proofs.PoLoad.
+  Proofs.PoParser Proofs.PoWitness Proofs.PoLex Model.PoLexer Proofs.PoOpen Proofs.PoDetect Proofs.PoLoad Proofs.PoUnescapeTotal.
 Import ListNotations.
 Local Open Scope N_scope.
 
@@ -204,6 +204,23 @@ Theorem C10_load_po_render : forall C raw enc sp c pls,
 Proof. exact load_po_render. Qed.
 Print Assumptions C10_load_po_render.
 
+(* (4) arbitrary input.  polib_unescape never fails in any other way than UnicodeDecodeError (the bytes literal handed
+   to ast.literal_eval is always well formed: no SyntaxError / ValueError), for every string and every codec ... *)
+Theorem C10_unescape_total : forall dec s c, unescape dec s <> Crash c.
+Proof. exact unescape_total. Qed.
+Print Assumptions C10_unescape_total.
+
+(* ... and CPython warns on stderr exactly when the string contains \8, \9 or an octal escape above \377
+   ([bad_escape]: the structural predicate of D14): outside D14 loading is silent. *)
+Theorem C10_unescape_warned_iff_D14 : forall dec s t w, unescape dec s = Ok (t, w) -> w = bad_escape s.
+Proof. exact unescape_warned. Qed.
+Print Assumptions C10_unescape_warned_iff_D14.
+
+(* the loader of Checker.check fails only with its own two errors, whatever the bytes and whatever the codecs answer *)
+Theorem C10_load_po_no_crash : forall C raw c, load_po C raw <> Crash c.
+Proof. exact load_po_no_crash. Qed.
+Print Assumptions C10_load_po_no_crash.
+
 (* non-vacuity *)
 Definition latin1 : decoder := fun b => Some b.
 Definition utf8_2 : decoder := fun b =>      (* enough of UTF-8 for the examples *)
@@ -231,3 +248,8 @@ Example C10_ex_D9 :   (* tokens of msgid a / msgid_plural b / msgstr[0..10] x : 
   | Ok f => map (fun e => map fst (pe_plural e)) (po_entries f) = [[0;1;2;3;4;5;6;7;8;9]]
   | _ => False end.
 Proof. vm_compute. reflexivity. Qed.
+
+Example C10_ex_bad_escape :  (* \\8 is an escaped backslash and an 8: silent; \8 and \400 warn; \377 and \18 do not *)
+  bad_escape [92;92;56] = false /\ bad_escape [92;56] = true /\ bad_escape [92;52;48;48] = true /\
+  bad_escape [92;51;55;55] = false /\ bad_escape [92;49;56] = false.
+Proof. vm_compute. repeat split; reflexivity. Qed.
